@@ -2,7 +2,7 @@
    [component_full] is the schema regenerated from the running code (Valid/Generated.v). *)
 From Coq Require Import String Ascii List Bool ZArith NArith Relations.
 Import ListNotations.
-Require Import V.Lib.PyStr V.Valid.Model V.Valid.Proofs V.Valid.Generated V.Valid.GenProofs.
+Require Import V.Lib.PyStr V.Valid.Model V.Valid.Proofs V.Valid.Kahn V.Valid.Replicate V.Valid.Generated V.Valid.GenProofs.
 Open Scope string_scope.
 
 (* accepted => identifiers unique, every reference names a component, no dependency cycle (no path from a
@@ -22,7 +22,60 @@ Theorem C11_acyclic_check_sound : forall g : list (cid * list cid),
 Proof. exact (acyclic_b_sound cid cid_eqb cid_eqb_eq). Qed.
 Print Assumptions C11_acyclic_check_sound.
 
-(* every applicable single fault (7 constructors, any position) turns an accepted workflow into a rejected one *)
+(* ... and complete: for every finite graph with distinct node names whose edges start at nodes of the graph
+   (both hypotheses are necessary: Refuted.v), "no node reaches itself" implies that the check accepts.
+   Any node type with a decidable equality. *)
+Theorem C11_acyclic_check_complete : forall (K : Type) (keqb : K -> K -> bool),
+  (forall a b, keqb a b = true <-> a = b) ->
+  forall g : list (K * list K),
+  NoDup (map fst g) -> closed_graph g -> (forall u, ~ clos_trans K (edge g) u u) -> acyclic_b keqb g = true.
+Proof. exact acyclic_b_complete. Qed.
+Print Assumptions C11_acyclic_check_complete.
+
+(* hence the checker's verdict IS acyclicity *)
+Theorem C11_acyclic_check_correct : forall (K : Type) (keqb : K -> K -> bool),
+  (forall a b, keqb a b = true <-> a = b) ->
+  forall g : list (K * list K),
+  NoDup (map fst g) -> closed_graph g ->
+  (acyclic_b keqb g = true <-> forall u, ~ clos_trans K (edge g) u u).
+Proof. exact acyclic_b_correct. Qed.
+Print Assumptions C11_acyclic_check_correct.
+
+(* on a workflow whose identifiers are distinct and whose references resolve (the two checks that precede it in
+   [accept]) the cycle check accepts exactly when no component depends, directly or not, on itself *)
+Theorem C11_cycle_check_exact : forall w,
+  uniq cid_eqb (ids w) = true -> refs_exist w = true ->
+  (acyclic_b cid_eqb (graph_of w) = true <-> forall u, ~ clos_trans cid (wedge w) u u).
+Proof. exact cycle_check_exact. Qed.
+Print Assumptions C11_cycle_check_exact.
+
+(* the converse of C11_sound: [accept] is EXACTLY the structural predicate (identifiers unique, references
+   resolve, no dependency cycle, variables defined and not cyclic per component and among the globals, no schema
+   error, stage indices without a gap) - the model rejects for no other reason.  Variable tables are dictionaries
+   (no name twice; necessary: Refuted.v) *)
+Theorem C11_accept_exact : forall w, dicts_ok w ->
+  (accept component_full w = true <-> structurally_ok component_full w).
+Proof. exact (accept_exact component_full). Qed.
+Print Assumptions C11_accept_exact.
+
+(* replication preserves acyclicity, for every graph and every assignment of replica counts (structured replica
+   identifiers: copy k consumes copy k of a replicated producer, a node that is not replicated consumes all copies) *)
+Theorem C11_replication_preserves_acyclicity : forall (K : Type) (cnt : K -> option N) (g : list (K * list K)),
+  (forall x, ~ clos_trans K (edge g) x x) ->
+  forall y, ~ clos_trans (rid K) (edge (expand_graph cnt g)) y y.
+Proof. exact replicate_acyclic. Qed.
+Print Assumptions C11_replication_preserves_acyclicity.
+
+(* so the expanded graph of an accepted workflow is acyclic whatever the replica counts are *)
+Theorem C11_accepted_replicated_acyclic : forall w (cnt : cid -> option N),
+  accept component_full w = true ->
+  forall y, ~ clos_trans (rid cid) (edge (expand_graph cnt (graph_of w))) y y.
+Proof. exact (accept_replicated_acyclic component_full). Qed.
+Print Assumptions C11_accepted_replicated_acyclic.
+
+(* every applicable single fault (8 constructors, any position; CyclicVars: a variable - global, or of one
+   component - additionally mentions a variable that already depends on it) turns an accepted workflow into a
+   rejected one *)
 Theorem C11_complete : forall m w,
   accept component_full w = true -> applicable component_full m w -> accept component_full (mutate m w) = false.
 Proof. exact (complete component_full). Qed.
@@ -74,14 +127,25 @@ Proof. exact schema_wrong_type. Qed.
 Print Assumptions C11_schema_wrong_type_any.
 
 (* non-vacuity: a three-component, two-stage workflow with variables is accepted by the regenerated schema and each
-   of the seven faults (here: one position each) makes it rejected *)
+   of the eight faults (here: one position each; three for CyclicVars: among the globals, a global through a
+   component variable, a component variable on itself) makes it rejected; the CyclicVars instances are applicable *)
 Example C11_nonvacuous :
   accept component_full ex_wf = true /\
   map (fun m => accept component_full (mutate m ex_wf))
       [DropComponent 0; RenameRef 2 1 (0%N, "nx"); AddBackEdge 0 (1%N, "c"); DupName 1 0;
        UnknownKey 1 [KS "resourceRequest"] (KS "numberProcessez") (VInt 1);
        WrongType 1 [KS "resourceRequest"] (KS "numberProcesses") (VList [VInt 1]);
-       RemoveVar "g0"]
-  = [false; false; false; false; false; false; false] /\
-  reasons component_full (mutate (AddBackEdge 0 (1%N, "c")) ex_wf) = [4].
-Proof. vm_compute. repeat split. Qed.
+       RemoveVar "g0"; CyclicVars None "g0" "g1"; CyclicVars None "g0" "lv"; CyclicVars (Some 0) "lv" "lv"]
+  = [false; false; false; false; false; false; false; false; false; false] /\
+  reasons component_full (mutate (AddBackEdge 0 (1%N, "c")) ex_wf) = [4] /\
+  reasons component_full (mutate (CyclicVars None "g0" "g1") ex_wf) = [5; 5] /\
+  applicable component_full (CyclicVars None "g0" "g1") ex_wf /\
+  applicable component_full (CyclicVars None "g0" "lv") ex_wf /\
+  applicable component_full (CyclicVars (Some 0) "lv" "lv") ex_wf /\
+  dicts_ok ex_wf /\
+  length (expand_graph ex_cnt ex_repl_graph) = 5.
+Proof.
+  split; [vm_compute; reflexivity|]. split; [vm_compute; reflexivity|]. split; [vm_compute; reflexivity|].
+  split; [vm_compute; reflexivity|].
+  destruct ex_cyclic_applicable as [H1 [H2 [H3 H4]]]. repeat (split; [assumption|]). vm_compute. reflexivity.
+Qed.
